@@ -16,6 +16,26 @@ CLAIMED = {
          "Generated-input search against a validity predicate (not an expected text): each row must strict-parse to the value being output, be framed by the separator, have the whitespace shape of its style, the three styles must agree after deleting whitespace tokens, and jawk must reproduce its own output byte for byte. 100k (quick) to 1.5M (thorough) configurations; exploration level because the space of values x configurations is unbounded.",
          "Trusted: strict reader; the pretty-shape predicate is deliberately lenient (any constant indentation unit, empty collections unconstrained). Known finding astral-escape-5hex excluded by signature (rewrite the 5/6-hex escape of exactly the astral characters of the expected value, then the whole predicate must pass).",
          "DESIGN.md §3 C02"),
+ "C07": ("exploration",
+         "property-based testing (proptest) with a reference stable sort over a finite key universe; exhaustive check of the order axioms over all pairs and triples of the universe using comparison matrices obtained from jawk",
+         "Order axioms (totality, antisymmetry w.r.t. =, transitivity, consistency of < <= > >= = !=, agreement with the specified type ranks and per-type orders) are checked exhaustively over a 108-value universe; --sort-by and the six sort functions are checked on generated sequences against a reference stable lexicographic sort (exact id order, so permutation, order, stability, multi-key and direction are decided together).",
+         "Trusted: the harness' spec comparator; the order between two *different* objects is taken from jawk's own matrix after it passed the axioms (unspecified by the documentation). Universe restricted as the quantifier says (|n| < 2^53 or non-integral, no -0, no member-order permutations).",
+         "DESIGN.md §3 C07"),
+ "C08": ("exploration",
+         "metamorphic property-based testing (jawk with limits vs jawk without, sliced by the harness) on generated pipelines and record streams, plus exhaustive enumeration of all streams up to length 4/5 over 4 keys x 8 pipelines x all 56 (skip,take) pairs",
+         "rows(P with --skip S --take T) must equal rows(P without)[S..S+T] byte for byte; with --group-by/--merge the single output must equal the documented grouping of that slice and must be emitted exactly once. Exhaustive for the small sub-space, random exploration (ties at the cut, multi-key sorts, unique, split, filter, select) beyond it.",
+         "Trusted: the unlimited run is the reference (its own correctness is C03/C07/C09/C10's subject).",
+         "DESIGN.md §3 C08"),
+ "C09": ("exploration",
+         "metamorphic/model-based property-based testing: the grouped output is compared with the documented grouping (a 15-line model) applied to the rows the same pipeline prints without grouping",
+         "Exactly one output row; keys = distinct string keys in first-seen order; arrays in arrival order; non-string/absent keys dropped; empty collection emitted when nothing survives; json (3 styles) and text output. 40k (quick) / 800k (thorough) generated (records, pipeline) pairs including explicitly generated empty inputs.",
+         "Trusted: the ungrouped run defines the surviving rows; the group key is read from the printed row.",
+         "DESIGN.md §3 C09"),
+ "C10": ("exploration",
+         "property-based testing against a first-occurrence-filter model under jawk's own = relation (matrix over the universe, itself checked exhaustively to be an equivalence agreeing with structural/numeric equality)",
+         "out(--unique) must be exactly the first-occurrence filter of out(without) under = on the list of selected values (absent only equals absent), for 0..3 selections over pools rich in equal-but-differently-spelled values.",
+         "Trusted: reference equality of the harness; universe restricted as the quantifier says.",
+         "DESIGN.md §3 C10"),
 }
 NOT_YET = "not claimed in this commit: the check is designed in DESIGN.md §3 but not yet built"
 
